@@ -7,6 +7,7 @@ import (
 	"github.com/MichaelMure/git-bug/entity/dag"
 	"github.com/MichaelMure/git-bug/repository"
 	"github.com/MichaelMure/git-bug/util/lamport"
+	"github.com/MichaelMure/git-bug/util/verifhook"
 )
 
 var _ CacheEntity = &CachedEntityBase[dag.Snapshot, dag.Operation]{}
@@ -74,6 +75,7 @@ func (e *CachedEntityBase[SnapT, OpT]) Commit() error {
 		return err
 	}
 	e.mu.Unlock()
+	verifhook.Point("cache.commit.unlocked")
 	return e.notifyUpdated()
 }
 
